@@ -55,6 +55,8 @@ def named_configs():
       'wo4': (MM, O(None, T(4, False, ch), P.FLOAT, True)),
       'wo8t': (MM, O(None, T(8, False, te), P.FLOAT, True)),     # asymmetric, per tensor (directed streams only)
       'wo4t': (MM, O(None, T(4, False, te), P.FLOAT, True)),
+      # per-channel ACTIVATIONS: no kernel takes them, no op supports the config (directed streams only)
+      'a8cw8': (MM, O(T(8, False, ch), T(8, True, ch), P.INTEGER)),
       'fp16': (FC_ALG, O(None, T(16, dtype=qtyping.TensorDataType.FLOAT),
                          P.FLOAT, True)),
       'nq': (NQ, None),
